@@ -1,10 +1,15 @@
 /-
-  Props/C13.lean — fit is linear in the forces and depends on the dataset as a multiset.
-  PROPERTY THEOREMS ONLY.
+  Props/C13.lean — the fit is linear in the forces and depends on the dataset as a multiset.
+  PROPERTY THEOREMS ONLY. `X` = design matrix (a function of the displacements only), `y` = forces,
+  "fit" = a solution of the normal equations `XᵀX c = Xᵀy`; "well-conditioned" = `X.mulVec` injective.
 -/
 import SymfcModel.Model.Inst
+import SymfcModel.Lemmas.LinAlg
 namespace Symfc.C13
-open Symfc
+open Symfc Matrix
+
+variable {K : Type*} [Field K] [LinearOrder K] [IsStrictOrderedRing K]
+variable {r k : Type*} [Fintype r] [Fintype k]
 
 /-- the six solvers fit exactly the documented order combinations, each order with one constant (the design matrix
     is a function of the displacements only; forces enter the right-hand side linearly) -/
@@ -12,5 +17,43 @@ theorem solver_combinations :
     Gen.solverConst6.map (fun p => (p.1, p.2.map (·.1))) =
       [("O2", [2]), ("O3", [3]), ("O4", [4]), ("O2O3", [2, 3]), ("O3O4", [3, 4]), ("O2O3O4", [2, 3, 4])] := by
   decide
+
+/-- the fit is unique when the snapshots determine the coefficients -/
+theorem fit_unique (X : Matrix r k K) (hinj : Function.Injective X.mulVec) (c c' : k → K)
+    (h : (Xᵀ * X) *ᵥ c = (Xᵀ * X) *ᵥ c') : c = c' :=
+  LinAlg.normal_eq_unique X hinj c c' h
+
+omit [LinearOrder K] [IsStrictOrderedRing K] in
+/-- fit(a f₁ + b f₂) = a fit(f₁) + b fit(f₂) -/
+theorem fit_linear_in_forces (X : Matrix r k K) (y1 y2 : r → K) (c1 c2 : k → K) (a b : K)
+    (h1 : (Xᵀ * X) *ᵥ c1 = Xᵀ *ᵥ y1) (h2 : (Xᵀ * X) *ᵥ c2 = Xᵀ *ᵥ y2) :
+    (Xᵀ * X) *ᵥ (a • c1 + b • c2) = Xᵀ *ᵥ (a • y1 + b • y2) :=
+  LinAlg.normal_eq_linear X y1 y2 c1 c2 a b h1 h2
+
+/-- identically zero forces give zero coefficients, hence zero force constants -/
+theorem zero_forces_give_zero (X : Matrix r k K) (hinj : Function.Injective X.mulVec) (c : k → K)
+    (h : (Xᵀ * X) *ᵥ c = Xᵀ *ᵥ (0 : r → K)) : c = 0 :=
+  LinAlg.normal_eq_zero X hinj c h
+
+omit [LinearOrder K] [IsStrictOrderedRing K] in
+/-- reordering the snapshots (any permutation σ of the rows, so also across batches) changes neither `XᵀX` nor `Xᵀy` -/
+theorem snapshot_order_irrelevant (X : Matrix r k K) (y : r → K) (σ : r ≃ r) :
+    (X.submatrix σ id)ᵀ * (X.submatrix σ id) = Xᵀ * X ∧ (X.submatrix σ id)ᵀ *ᵥ (y ∘ σ) = Xᵀ *ᵥ y :=
+  ⟨LinAlg.gram_submatrix_equiv X σ, LinAlg.rhs_submatrix_equiv X y σ⟩
+
+/-- duplicating the whole dataset leaves the set of fits unchanged -/
+theorem duplication_irrelevant (X : Matrix r k K) (y : r → K) (c : k → K) :
+    ((Matrix.of (fun (s : r ⊕ r) i => X (s.elim id id) i))ᵀ * (Matrix.of (fun (s : r ⊕ r) i => X (s.elim id id) i))) *ᵥ c
+        = (Matrix.of (fun (s : r ⊕ r) i => X (s.elim id id) i))ᵀ *ᵥ (fun s => y (s.elim id id))
+      ↔ (Xᵀ * X) *ᵥ c = Xᵀ *ᵥ y :=
+  LinAlg.normal_eq_duplicate_iff X y c
+
+/-- for a single fitted order n the design matrix is homogeneous of degree n−1 in the displacements: scaling
+    displacements by s and forces by s^(n−1) scales (X, y) to (t•X, t•y) with t = s^(n−1) ≠ 0, which leaves the fits
+    unchanged -/
+theorem scaling_irrelevant (X : Matrix r k K) (y : r → K) (s : K) (n : Nat) (hs : s ≠ 0) (c : k → K) :
+    (((s ^ (n - 1)) • X)ᵀ * ((s ^ (n - 1)) • X)) *ᵥ c = ((s ^ (n - 1)) • X)ᵀ *ᵥ ((s ^ (n - 1)) • y)
+      ↔ (Xᵀ * X) *ᵥ c = Xᵀ *ᵥ y :=
+  LinAlg.normal_eq_smul_iff X y (s ^ (n - 1)) (pow_ne_zero _ hs) c
 
 end Symfc.C13
